@@ -12,6 +12,7 @@ import (
 	"os"
 	"path/filepath"
 	"strconv"
+	"strings"
 )
 
 // ImageFormat 图片格式类型
@@ -989,9 +990,10 @@ func (d *Document) addImageContentType(format ImageFormat) {
 		return
 	}
 
-	// 检查是否已存在相同的默认类型
+	// 检查是否已存在相同的默认类型（扩展名不区分大小写：打开的文档可能写作 "PNG"，
+	// 再添加一个 "png" 会使同一扩展名有两个默认类型，内容类型不同时已有部件的类型就不再确定）
 	for _, def := range d.contentTypes.Defaults {
-		if def.Extension == extension {
+		if strings.EqualFold(def.Extension, extension) {
 			return
 		}
 	}
